@@ -186,12 +186,12 @@ func (x *Val) UnmarshalJSON(data []byte) error {
 }
 
 // constructors
-func vNull() Val          { return Val{T: "null"} }
-func vBool(b bool) Val    { return Val{T: "bool", B: b} }
-func vInt(i int64) Val    { return Val{T: "int", S: []byte(strconv.FormatInt(i, 10))} }
-func vName(b []byte) Val  { return Val{T: "name", S: b} }
-func vStr(b []byte) Val   { return Val{T: "str", S: b} }
-func vArr(e ...Val) Val   { return Val{T: "arr", E: e} }
+func vNull() Val           { return Val{T: "null"} }
+func vBool(b bool) Val     { return Val{T: "bool", B: b} }
+func vInt(i int64) Val     { return Val{T: "int", S: []byte(strconv.FormatInt(i, 10))} }
+func vName(b []byte) Val   { return Val{T: "name", S: b} }
+func vStr(b []byte) Val    { return Val{T: "str", S: b} }
+func vArr(e ...Val) Val    { return Val{T: "arr", E: e} }
 func vRealF(f float64) Val { return Val{T: "real", F: f} }
 func vRef(n uint32, g uint16) Val {
 	return Val{T: "ref", N: []byte(strconv.FormatUint(uint64(n), 10)), G: []byte(strconv.FormatUint(uint64(g), 10))}
@@ -563,17 +563,17 @@ func sigSeq(xs []Val) string {
 }
 
 // exported constructors (used by the C15 driver)
-func VNull() Val                  { return vNull() }
-func VBool(b bool) Val            { return vBool(b) }
-func VInt(i int64) Val            { return vInt(i) }
-func VReal(f float64) Val         { return vRealF(f) }
-func VName(b []byte) Val          { return vName(b) }
-func VStr(b []byte) Val           { return vStr(b) }
-func VArr(e ...Val) Val           { return vArr(e...) }
-func VDict(m map[string]Val) Val  { return vDict(m) }
-func Sig(x Val) string            { return sig(x) }
-func Ints(b []byte) []int         { return ints(b) }
-func Unints(v []int) []byte       { return unints(v) }
+func VNull() Val                 { return vNull() }
+func VBool(b bool) Val           { return vBool(b) }
+func VInt(i int64) Val           { return vInt(i) }
+func VReal(f float64) Val        { return vRealF(f) }
+func VName(b []byte) Val         { return vName(b) }
+func VStr(b []byte) Val          { return vStr(b) }
+func VArr(e ...Val) Val          { return vArr(e...) }
+func VDict(m map[string]Val) Val { return vDict(m) }
+func Sig(x Val) string           { return sig(x) }
+func Ints(b []byte) []int        { return ints(b) }
+func Unints(v []int) []byte      { return unints(v) }
 
 // RandVal draws a random value (no references: they cannot occur in content streams).
 func RandVal(r *rand.Rand, depth, maxStr int) Val {
